@@ -208,8 +208,8 @@ class odict(dict):
         """
         if key in self:
             raise KeyError('Key %r already exists.' % key)
+        self._keys.insert(index, key)  # a bad index raises here, before the dict is touched
         dict.__setitem__(self, key, val)
-        self._keys.insert(index, key)
 
     def items(self):
         return [(key, dict.__getitem__(self, key)) for key in self._keys]
